@@ -313,6 +313,31 @@ fn check_doc(cx: &mut Ctx, text: &str, md: bool, light: bool, tier: Tier, viols:
             }
         }
     }
+    // a SMALLER list absorbing a LARGER one and vice versa: all three lints hidden afterwards
+    if lints.len() >= 3 {
+        for (own_idx, other_idx) in [(vec![0usize], vec![1usize, 2]), (vec![1, 2], vec![0]), (vec![2], vec![0, 1])] {
+            traces += 1;
+            transitions += 4;
+            let mut own = IgnoredLints::new();
+            for i in &own_idx {
+                own.ignore_lint(&lints[*i], &doc);
+            }
+            let mut other = IgnoredLints::new();
+            for i in &other_idx {
+                other.ignore_lint(&lints[*i], &doc);
+            }
+            let Ok(imported) = serde_json::from_str::<IgnoredLints>(&serde_json::to_string(&other).unwrap()) else { continue };
+            own.append(imported);
+            let mut rest = lints.clone();
+            own.remove_ignored(&mut rest, &doc);
+            for j in 0..3 {
+                if rest.iter().any(|l| l == &lints[j]) {
+                    let which = if own_idx.contains(&j) { "own-entry-lost" } else { "imported-entry-lost" };
+                    push(format!("merged-ignore-lists:{which}:lists-of-different-size"), case(json!([format!("instance 1 ignores lints {own_idx:?}"), format!("instance 2 ignores lints {other_idx:?}"), "instance 1 imports the exported list of instance 2"])), json!({"still_reported": lint_json(&lints[j])}), viols);
+                }
+            }
+        }
+    }
     // pairs: ignoring two lints hides both and nothing else that differs from both
     if lints.len() >= 3 {
         for a in 0..lints.len().min(4) {
